@@ -1,6 +1,6 @@
 SPECIFICATION SimSpec
 CONSTANTS
-  Parties = {"p1", "p2", "p3", "p4", "p5"}
+  Parties = {"p1", "p2", "p3", "p4", "p5", "p6", "p7", "p8"}
   Creator = "p1"
   MaxCommits = 40
   MaxProps = 40
@@ -8,21 +8,21 @@ CONSTANTS
   MaxEpoch = 30
   PathRequiredChoices = {FALSE, TRUE}
   EncChoices = {FALSE, TRUE}
-  ByValueMax = 2
+  ByValueMax = 3
   AllowConflicts = FALSE
-  Features = {"apps", "storage", "detached"}
-  Window = 1024
-  Retention = 3
+  Features = {}
+  Window = 2
+  Retention = 2
   BurstSizes = {1, 2}
   PskIds = {}
   PskValues = {"none"}
   Deviations = {"F12"}
-  MaxApps = 30
-  Depth = 60
-  WProgress = 50
-  WPropose = 20
-  WCommit = 30
+  MaxApps = 0
+  Depth = 90
+  WProgress = 66
+  WPropose = 18
+  WCommit = 55
   WApp = 15
-  WStore = 30
+  WStore = 10
 INVARIANT EmitAtDepth
 CHECK_DEADLOCK FALSE
